@@ -372,6 +372,11 @@ def eval_marker_tree(ctx, tree, on_node, *, prop, watchdog=5.0):
 
     def go():
         try:
+            if getattr(ctx, "boundary_only", False):
+                # heavy cases: only the values handed back at the tree nodes are decided; the thousands of inner
+                # calls run unobserved (their own post-conditions would dominate the cost)
+                with oracle():
+                    return MW.build(tree, hook)
             return MW.build(tree, hook)
         except CaseTimeout:
             raise
@@ -382,7 +387,7 @@ def eval_marker_tree(ctx, tree, on_node, *, prop, watchdog=5.0):
             return None
 
     ctx.env_budget = ctx.env_cap_top
-    ok, root = ctx.guarded(watchdog, go)
+    ok, root = ctx.guarded(max(watchdog, getattr(ctx, "watchdog_floor", 0) or 0), go)
     return root if ok else None
 
 
@@ -432,7 +437,7 @@ def type_empty():
 def _law_case(ctx, prop):
     M, single = classes()
 
-    def per_case(texts):
+    def per_case(texts, only=None):
         ms = [M.parse_marker(t) for t in texts]
         a, b, c = ms
         if len({str(x) for x in ms}) == 3 and not any(x.is_any() or x.is_empty() for x in ms):
@@ -440,6 +445,8 @@ def _law_case(ctx, prop):
             if sum(1 for s in ctx.samples if isinstance(s, dict) and s.get("kind") == "marker-triple") < 3:
                 ctx.samples.append({"kind": "marker-triple", "a": texts[0], "b": texts[1], "c": texts[2]})
         for name, lf, rf in marker_laws(a, b, c):
+            if only is not None and name not in only:
+                continue
             bump("marker-law")
             try:
                 lhs, rhs = lf(), rf()
@@ -476,9 +483,35 @@ def run_marker_laws(ctx, prop):
         ctx.cases += 1
         ctx.current_case = {"kind": "marker-triple", "texts": texts}
         ctx.guarded(8.0 if ctx.tier == "quick" else 20.0, per, texts)
+    # structured triples beyond the size of the random ones: a conjunction / a group, its operand-order twin and a
+    # flat union over 9-12 further atoms (more than ten distinct atoms in one `|`), under the laws that stay cheap
+    from .checks._marker_common import _FLAT_NAMES
+
+    cheap = {"commutative-or", "associative-or", "idempotent-or", "commutative-and", "identity-or"}
+    t_end = ctx.elapsed() + (12 if ctx.tier == "quick" else 120)
+    n_struct = 0
+    for i in range(6 if ctx.tier == "quick" else 120):
+        if ctx.elapsed() > t_end:
+            break
+        v = rnd.sample(_FLAT_NAMES, 3)
+        k = rnd.choice([2, 3])
+        atoms = [f'{x} == "g{j}"' for j, x in enumerate(v)][:k]
+        join = " and " if i % 3 else " or "
+        if join == " or ":
+            atoms = [f'{v[0]} == "g{j}"' for j in range(k)]   # a group and its value-order twin
+        g, g2 = join.join(atoms), join.join(reversed(atoms))
+        rest = [n for n in _FLAT_NAMES if n not in v] + ["extra", "python_version"]
+        flat = " or ".join([f'{n} == "f{j}"' if n != "python_version" else 'python_version >= "3.8"'
+                            for j, n in enumerate(rest)] + [f'{v[1]} == "h{j}"' for j in range(rnd.choice([2, 4]))])
+        for texts in ([g, g2, flat], [flat, g, g2], [g, flat, g2]):
+            ctx.cases += 1
+            n_struct += 1
+            ctx.current_case = {"kind": "marker-triple", "texts": texts, "only": sorted(cheap)}
+            ctx.guarded(20.0 if ctx.tier == "quick" else 60.0, per, texts, cheap)
+    ctx.extra["structured_marker_triples"] = n_struct
     ctx.current_case = None
 
 
 def replay_marker_law(ctx, prop, case):
     prepare(ctx)
-    _law_case(ctx, prop)(case["texts"])
+    _law_case(ctx, prop)(case["texts"], set(case["only"]) if case.get("only") else None)
